@@ -125,3 +125,67 @@ Proof.
   split; [vm_compute; tauto |]. split; [reflexivity |].
   split; vm_compute; intuition discriminate.
 Qed.
+
+(* ------------------------------------------------------------------ a server that is not root *)
+Local Opaque N.land N.ldiff N.lor N.shiftr dirmode m600 m700 m770.
+
+Ltac eval_fs_nz t :=
+  eval lazy beta iota zeta delta
+       [fexec lexec l_fs l_chan l_log fst snd lookup set remove ftag_eqb tag_ix Nat.eqb with_fs with_log has_children
+        existsb child_tags is_some srv_may_chmod srv_may_chown srv_root srv c_uid c_gid umask
+        e_uid e_gid e_mode e_isdir] in t.
+Ltac walk_nz tac post :=
+  repeat match goal with
+         | |- check_all _ _ _ [] => apply check_all_nil; tac
+         | |- check_all _ _ _ (_ :: _) =>
+             apply check_all_cons;
+             [ tac
+             | match goal with
+               | |- check_all _ ?en (fexec ?en ?f ?o) _ =>
+                   let f' := eval_fs_nz (fexec en f o) in change (fexec en f o) with f'; post
+               end ]
+         end.
+
+(* a server that is NOT root, authorising ids that are its own (same-uid clients with the default authorisation, or
+   auth_set(-1, -1, mode)): chown changes nothing and succeeds; the full statement holds *)
+Lemma fixed_any_moment_one_nonroot : forall en tr p,
+  keep (a_uid (eff_auth p)) (c_uid (srv en)) = c_uid (srv en) ->
+  keep (a_gid (eff_auth p)) (c_gid (srv en)) = c_gid (srv en) ->
+  check_all (all_entries (permitted (srv en) (authorised p))) en [] (peer_script Fixed tr p).
+Proof.
+  intros en tr p Hu Hg. destruct en as [um [su sg]]. cbn [srv c_uid c_gid] in Hu, Hg.
+  unfold peer_script, admission_ops, authorised.
+  set (a := eff_auth p) in *.
+  destruct (p_decision p =? 0); destruct tr;
+    cbn [connect_ops ring_ops ctl_ops teardown_ops app];
+    walk_nz ltac:(unfold all_entries, permitted, private_to, handed_over, allowed; cbn [srv c_uid c_gid];
+                  repeat (first [apply Forall_nil | apply Forall_cons]); cbn [snd e_uid e_gid e_mode e_isdir];
+                  try first [ left; split; [reflexivity | solve_sub]
+                            | right; exists a; split; [reflexivity | split; [symmetry; exact Hu | split;
+                                [symmetry; exact Hg | solve_sub]]] ])
+            ltac:(rewrite ?Hu, ?Hg, ?Z.eqb_refl; cbn [orb andb]; rewrite ?orb_true_r; cbn [orb andb]).
+Qed.
+
+Theorem fixed_any_moment_nonroot_global : forall en tr (ps : nat -> peer) l,
+  (forall k, keep (a_uid (eff_auth (ps k))) (c_uid (srv en)) = c_uid (srv en) /\
+             keep (a_gid (eff_auth (ps k))) (c_gid (srv en)) = c_gid (srv en)) ->
+  (forall k, is_prefix (fsops (proj k l)) (peer_script Fixed tr (ps k))) ->
+  forall k t e, lookup t (l_fs (run en w_empty l k)) = Some e -> permitted (srv en) (authorised (ps k)) e.
+Proof.
+  intros en tr ps l Hown Hpre.
+  apply (any_moment_global (fun k => permitted (srv en) (authorised (ps k))) Fixed en tr ps); [| exact Hpre].
+  intro k. destruct (Hown k). apply fixed_any_moment_one_nonroot; assumption.
+Qed.
+
+(* a non-root server authorising somebody else: chown fails with EPERM, which the code ignores (ipc_setup.c "(void)chown",
+   ringbuffer.c qb_rb_chown "errno != EPERM", ipc_socket.c "ignore res"): the connection is accepted, the objects stay the
+   server's and get the authorised mode - with 0660 the SERVER's group can read and write them, which nobody
+   authorised; the authorised client itself cannot open them and its connect fails with EACCES *)
+Definition nonroot_env : env := mkEnv 18%N (mkC 500 500).
+Lemma nonroot_refuted :
+  all_prefixes_ok nonroot_env Fixed Shm peer_auth_other = false /\
+  lookup TReqD (frun nonroot_env [] (admission_ops Fixed Shm peer_auth_other)) = Some (mkE 500 500 432%N false) /\
+  connect_result Shm peer_auth_other (lrun nonroot_env l_empty (admission_ops Fixed Shm peer_auth_other)) = - ADM_EACCES /\
+  frun nonroot_env [] (peer_script Fixed Shm peer_auth_other) = [] /\
+  all_prefixes_ok nonroot_env Fixed Shm (mkP (mkC 500 500) (mkC 500 500) 0 None false) = true.
+Proof. vm_compute. repeat split. Qed.
